@@ -38,7 +38,7 @@ _guide = os.path.join(core.REPO, "docs", "userguide.rst")
 DOC_FLAGS = sorted(set(re.findall(r"soln\.(EXIT_[A-Z_]+)", open(_guide).read()))) if os.path.exists(_guide) else []
 if len(DOC_FLAGS) < 5:
     raise core.HarnessError("could not parse the exit-code names from docs/userguide.rst")
-EITHER = {("tr_radius.alpha1", 1.0), ("growing.delta_scale_new_dirns", 0.0), ("tr_radius.alpha1", 0.0), ("restarts.rhoend_scale", 0.0), ("general.safety_step_thresh", 0.0), ("slow.history_for_slow", 0), ("func_tol.max_iters", 0),
+EITHER = {("tr_radius.alpha1", 1.0), ("dykstra.max_iters", 0), ("growing.delta_scale_new_dirns", 0.0), ("tr_radius.alpha1", 0.0), ("restarts.rhoend_scale", 0.0), ("general.safety_step_thresh", 0.0), ("slow.history_for_slow", 0), ("func_tol.max_iters", 0),
           ("func_tol.criticality_measure", 0.0), ("func_tol.tr_step", 1.0)}
 
 BASE_PROF = sc.make_prof(fams=["lin", "sinlin", "hashed", "script"], nmax=3, mmax=4,
